@@ -274,6 +274,13 @@ def run_check(pid: str, tier: str, seed: int, replay: str | None = None) -> int:
         for v in r["viol"]:
             viols.append((v["fields"], v["count"], v["witnesses"], r["spec"]))
 
+    # optional cross-shard monitor: sees the merged observations (e.g. the same question
+    # answered under different PYTHONHASHSEEDs / histories must have one answer)
+    fin = getattr(mod, "finalize", None)
+    if fin and not replay:
+        for mech, wit, fields in fin(observed, counters) or []:
+            fields = dict(fields, mechanism=mech)
+            viols.append((jsonable(fields), 1, [jsonable(wit)], {"name": "finalize", "tier": tier}))
     req = getattr(mod, "required", lambda tier: {})(tier)
     if not replay:
         for name, minimum in req.items():
